@@ -6,15 +6,15 @@ Patterns(K) == {[i \in 1..K |-> "f"], [i \in 1..K |-> IF i = 1 THEN "f" ELSE "fg
                 [i \in 1..K |-> IF i % 2 = 1 THEN "f" ELSE "g"], [i \in 1..K |-> "fb"]}
 MCInit ==
   /\ \E kind \in {"opt", "eval"} : \E K \in KSet : \E reqs \in Patterns(K) : \E failAt \in 0..K :
-     \E fclass \in {"thr", "filter", "est", "pert", "allnan", "exc"} : \E maxfun \in 0..(K + 1) : \E allownan \in BOOLEAN :
+     \E fclass \in {"thr", "filter", "est", "pert", "allnan", "exc", "estpert", "allnanpert"} : \E maxfun \in 0..(K + 1) : \E allownan \in BOOLEAN :
      \E flt \in {"none", "sort-objective", "sort-constraint", "cvar-objective", "cvar-constraint"} :
      \E est \in {"mean", "std"} : \E tf \in TfSet :
-       /\ (kind = "eval" => K = 1 /\ reqs = <<"f">> /\ maxfun = 0 /\ ~allownan /\ fclass # "pert")
+       /\ (kind = "eval" => K = 1 /\ reqs = <<"f">> /\ maxfun = 0 /\ ~allownan /\ fclass \notin {"pert", "estpert", "allnanpert"})
        /\ (reqs[1] = "fb" => kind = "opt" /\ fclass \in {"thr", "exc"} /\ flt = "none")
        /\ (failAt = 0 => fclass = "thr" /\ flt = "none" /\ est = "mean" /\ ~allownan)
-       /\ (allownan => fclass = "allnan")
+       /\ (allownan => fclass \in {"allnan", "allnanpert"})
        /\ (fclass = "filter" => flt # "none") /\ (flt # "none" => fclass \in {"filter", "thr"})
-       /\ (fclass = "est" <=> est = "std")
+       /\ (fclass \in {"est", "estpert"} <=> est = "std")
        /\ cfg = [kind |-> kind, reqs |-> reqs, failAt |-> failAt, fclass |-> fclass, maxfun |-> maxfun, allownan |-> allownan,
                  flt |-> flt, est |-> est, tf |-> tf]
   /\ k = 0 /\ completed = 0 /\ evals = 0 /\ delivered = <<>> /\ exit = "none" /\ phase = "next"
